@@ -69,7 +69,7 @@ def from_py(v):
     if isinstance(v, list):
         return ('list', tuple(from_py(x) for x in v))
     if isinstance(v, tuple):
-        return ('tuple', tuple(from_py(x) for x in v))
+        return ('list', tuple(from_py(x) for x in v))     # constant tuples and lists share one canonical form
     if isinstance(v, range):
         return ('range', C(v.start), C(v.stop), C(v.step))
     if isinstance(v, dict):
@@ -725,7 +725,11 @@ class PE:
         return self.lookup(n.id, env, n)
 
     def ev_Tuple(self, n, env):
-        return ('tuple', tuple(self.ev(e, env) for e in n.elts))
+        items = tuple(self.ev(e, env) for e in n.elts)
+        # a tuple literal of constants is a lookup table: same canonical form as the list literal
+        if items and all(concrete(x) for x in items):
+            return ('list', items)
+        return ('tuple', items)
 
     def ev_List(self, n, env):
         return ('list', tuple(self.ev(e, env) for e in n.elts))
